@@ -46,6 +46,12 @@ dmap_f = z3.Function("Dmap", z3.ArraySort(I, V.RefSort), SS)
 minmap = z3.Function("minmap", SS, IS)
 maxmap = z3.Function("maxmap", SS, IS)
 
+lmap_f = z3.Function("Lmap", z3.ArraySort(I, V.RefSort), SS)   # Lmap C i = L (C i): sets of a list of types
+amap_f = z3.Function("Amap", z3.ArraySort(I, V.RefSort), IS)   # Amap C i = A (C i): alignments of a list of types
+L_uf = z3.Function("L!type", V.RefSort, S)                      # ghost: the Specification's bit length set of a type
+A_uf = z3.Function("A!type", V.RefSort, I)                      # ghost: the Specification's alignment of a type
+sfold_f = z3.Function("sfold", SS, IS, I, S)                    # struct layout fold over the first n fields
+
 # witness (skolem) functions
 w_mod = z3.Function("w_mod", S, I, I, I)
 w_pad = z3.Function("w_pad", S, I, I, I)
@@ -60,6 +66,8 @@ sk_seq = z3.Function("sk_seq", IS, IS, I, I)
 sk_ext = z3.Function("sk_ext", SS, SS, I, I)
 sk_wf = z3.Function("sk_wf", SS, I, I)
 w_neg = z3.Function("w_neg", S, I)
+w_mul = z3.Function("w_mul", I, I, I, I)
+w_id = z3.Function("idx!hint", I, I)
 w_minseq = z3.Function("w_minseq", IS, I, I)
 w_maxseq = z3.Function("w_maxseq", IS, I, I)
 
@@ -162,6 +170,12 @@ def prelude() -> List[Tuple[str, str, Any]]:
            patterns=[sel(dmap_f(C), i), MP(D_uf(sel(C, i)), dmap_f(C))]))
     add("nsum-one", "Lean Bounds.nsum_single", FA([F], nsum(F, 1) == sel(F, 0), patterns=[nsum(F, 1)]))
     add("nsum-two", "Lean Bounds.nsum_pair", FA([F], nsum(F, 2) == sumset_f(sel(F, 0), sel(F, 1)), patterns=[nsum(F, 2)]))
+    add("lmap", "definitional: Lmap C i = L (C i)",
+        FA([C, i], sel(lmap_f(C), i) == L_uf(sel(C, i)), patterns=[sel(lmap_f(C), i), MP(L_uf(sel(C, i)), lmap_f(C))]))
+    add("amap", "definitional: Amap C i = A (C i)",
+        FA([C, i], sel(amap_f(C), i) == A_uf(sel(C, i)), patterns=[sel(amap_f(C), i), MP(A_uf(sel(C, i)), amap_f(C))]))
+    add("sfold-zero", "definitional: SFold [] = {0}", FA([F, M], sfold_f(F, M, 0) == singleton_f(0),
+                                                        patterns=[sfold_f(F, M, 0)]))
     add("minmap", "definitional", FA([F, i], sel(minmap(F), i) == smin(sel(F, i)), patterns=[sel(minmap(F), i)]))
     add("maxmap", "definitional", FA([F, i], sel(maxmap(F), i) == smax(sel(F, i)), patterns=[sel(maxmap(F), i)]))
 
@@ -256,7 +270,51 @@ def prelude() -> List[Tuple[str, str, Any]]:
                                   And(sel(nsum(F, n), sumseq(minmap(F), n)), sel(nsum(F, n), sumseq(maxmap(F), n))))),
            patterns=[nsum(F, n)]))
 
+    # ---- singletons, multiples, identities
+    add("multiples-in", "definitional: multiples a n = {0, a, 2a, ..., n*a}",
+        FA([a, n, i], Imp(And(0 <= i, i <= n), sel(mults_f(a, n), i * a)), patterns=[MP(mults_f(a, n), w_id(i))]))
+    add("multiples-out", "definitional",
+        FA([a, n, y], Imp(sel(mults_f(a, n), y), And(0 <= w_mul(a, n, y), w_mul(a, n, y) <= n, y == w_mul(a, n, y) * a)),
+           patterns=[sel(mults_f(a, n), y)]))
+    add("multiples-ends", "definitional instances (j = 0 and j = n)",
+        FA([a, n], Imp(n >= 0, And(sel(mults_f(a, n), 0), sel(mults_f(a, n), n * a))), patterns=[mults_f(a, n)]))
+    add("rangefold-singleton", "Lean Bounds.mem_rangefold_singleton",
+        FA([a, n], Imp(n >= 0, rangefold_f(singleton_f(a), n) == mults_f(a, n)), patterns=[rangefold_f(singleton_f(a), n)]))
+    add("kfold-singleton", "Lean Bounds.kfold_singleton",
+        FA([a, k], Imp(k >= 0, kfold(singleton_f(a), k) == singleton_f(k * a)), patterns=[kfold(singleton_f(a), k)]))
+    add("sumset-zero-left", "Lean Bounds.sumset_zero_left", FA([A], sumset_f(singleton_f(0), A) == A,
+                                                              patterns=[sumset_f(singleton_f(0), A)]))
+    add("sumset-zero-right", "Lean Bounds.sumset_zero_right", FA([A], sumset_f(A, singleton_f(0)) == A,
+                                                                patterns=[sumset_f(A, singleton_f(0))]))
+    add("padset-singleton", "image of a singleton (Finset.image_singleton)",
+        FA([a, r], padset_f(singleton_f(a), r) == singleton_f(pad_f(r, a)), patterns=[padset_f(singleton_f(a), r)]))
+    add("padset-of-aligned", "Lean Basic.padset_of_aligned",
+        FA([A, r], Imp(And(r >= 1, wf(A), aligned(A, r)), padset_f(A, r) == A), patterns=[padset_f(A, r)]))
+    add("smin-singleton", "min/max of a singleton", FA([a], And(smin(singleton_f(a)) == a, smax(singleton_f(a)) == a),
+                                                       patterns=[singleton_f(a)]))
+    add("multiples-minmax", "least / greatest multiple (a >= 0)",
+        FA([a, n], Imp(And(a >= 0, n >= 0), And(smin(mults_f(a, n)) == 0, smax(mults_f(a, n)) == n * a)),
+           patterns=[mults_f(a, n)]))
+    add("sumset-minmax", "Lean Bounds.nsum_bounds / nsum_mem_sum for the two-element list (Bounds.nsum_pair)",
+        FA([A, Bs], Imp(And(wf(A), wf(Bs)), And(smin(sumset_f(A, Bs)) == smin(A) + smin(Bs),
+                                                 smax(sumset_f(A, Bs)) == smax(A) + smax(Bs))),
+           patterns=[sumset_f(A, Bs)]))
+    add("wf-multiples", "closure", FA([a, n], Imp(And(a >= 0, n >= 0), wf(mults_f(a, n))), patterns=[mults_f(a, n)]))
+
     # ---- alignment (every element is a multiple of a)
+    add("aligned-sumset", "Lean Basic.aligned_sumset",
+        FA([A, Bs, a], Imp(And(aligned(A, a), aligned(Bs, a)), aligned(sumset_f(A, Bs), a)),
+           patterns=[aligned(sumset_f(A, Bs), a)]))
+    add("aligned-kfold", "Lean Basic.aligned_kfold",
+        FA([A, k, a], Imp(And(aligned(A, a), k >= 0), aligned(kfold(A, k), a)), patterns=[aligned(kfold(A, k), a)]))
+    add("aligned-rangefold", "Lean Basic.aligned_rangefold",
+        FA([A, k, a], Imp(And(aligned(A, a), k >= 0), aligned(rangefold_f(A, k), a)),
+           patterns=[aligned(rangefold_f(A, k), a)]))
+    add("aligned-padset", "Lean Basic.aligned_padset",
+        FA([A, r], Imp(r >= 1, aligned(padset_f(A, r), r)), patterns=[padset_f(A, r)]))
+    add("aligned-singleton", "Lean Bounds.aligned_singleton",
+        FA([x, a], Imp(And(a >= 1, pmod(x, a) == 0), aligned(singleton_f(x), a)), patterns=[aligned(singleton_f(x), a)]))
+    add("aligned-one", "Lean Bounds.aligned_of_dvd with 1 | a", FA([A], aligned(A, 1), patterns=[aligned(A, 1)]))
     add("aligned-elim", "definitional: aligned A a := every element of A is a multiple of a",
         FA([A, a, x], Imp(And(aligned(A, a), sel(A, x), a >= 1), pmod(x, a) == 0), patterns=[MP(aligned(A, a), sel(A, x))]))
     add("aligned-intro", "definitional (skolemised converse)",
@@ -325,21 +383,33 @@ def pad(r, x):
     return native_pad(r, x)
 
 
+def _lazy(A):
+    return hasattr(A, "residues") and hasattr(A, "kind")
+
+
 def modset(A, d):
     if smt():
         return V.SymSet(modset_f(_t(A), _i(d)))
+    if _lazy(A):
+        return A.residues(d)
     return frozenset(x % d for x in A)
 
 
 def padset(A, r):
     if smt():
         return V.SymSet(padset_f(_t(A), _i(r)))
+    if _lazy(A):
+        return type(A)("pad", A, r)
     return frozenset(native_pad(r, x) for x in A)
 
 
 def sumset(A, Bv):
     if smt():
         return V.SymSet(sumset_f(_t(A), _t(Bv)))
+    if _lazy(A) or _lazy(Bv):
+        cls = type(A) if _lazy(A) else type(Bv)
+        wrap = lambda X: X if _lazy(X) else cls("set", frozenset(X))
+        return cls("cat", [wrap(A), wrap(Bv)])
     return frozenset(x + y for x in A for y in Bv)
 
 
@@ -353,6 +423,8 @@ def native_kfold(A, k):
 def kfold_s(A, k):
     if smt():
         return V.SymSet(kfold(_t(A), _i(k)))
+    if _lazy(A):
+        return type(A)("rep", A, k)
     if k < 0:
         return frozenset()
     return native_kfold(A, k)
@@ -361,6 +433,8 @@ def kfold_s(A, k):
 def rangefold(A, K):
     if smt():
         return V.SymSet(rangefold_f(_t(A), _i(K)))
+    if _lazy(A):
+        return type(A)("rng", A, K)
     out = set()
     cur = frozenset([0])
     out |= cur
@@ -379,6 +453,18 @@ def singleton(a):
 def SETEQ(A, Bv):
     if smt():
         return _t(A) == _t(Bv)
+    la, lb = _lazy(A), _lazy(Bv)
+    if la and lb:
+        try:
+            return A.elements() == Bv.elements()
+        except OverflowError:
+            # too large to enumerate: compare the exact analytic answers instead (min, max, residues for many divisors)
+            return A.min() == Bv.min() and A.max() == Bv.max() and all(
+                A.residues(d) == Bv.residues(d) for d in (1, 2, 3, 4, 5, 7, 8, 9, 16, 32, 33, 64, 65, 100))
+    if la:
+        A = A.elements()
+    if lb:
+        Bv = Bv.elements()
     return frozenset(A) == frozenset(Bv)
 
 
@@ -391,24 +477,32 @@ def MEM(x, A):
 def SMIN(A):
     if smt():
         return smin(_t(A))
+    if _lazy(A):
+        return A.min()
     return min(A)
 
 
 def SMAX(A):
     if smt():
         return smax(_t(A))
+    if _lazy(A):
+        return A.max()
     return max(A)
 
 
 def WFSET(A):
     if smt():
         return wf(_t(A))
+    if _lazy(A):
+        return True
     return len(A) > 0 and all(isinstance(x, int) and x >= 0 for x in A)
 
 
 def ALIGNED(A, a):
     if smt():
         return aligned(_t(A), _i(a))
+    if _lazy(A):
+        return A.residues(a) == frozenset([0])
     return all(x % a == 0 for x in A)
 
 
@@ -418,3 +512,8 @@ def LCM(a, b):
     import math
 
     return math.lcm(a, b)
+
+
+def sfold_unfold(F, M, n):
+    """Definitional instance: SFold(fs ++ [f]) = sumset(padset(SFold(fs), A f), L f), for the field with index n."""
+    return sfold_f(F, M, n + 1) == sumset_f(padset_f(sfold_f(F, M, n), z3.Select(M, n)), z3.Select(F, n))
